@@ -62,17 +62,17 @@ NUM_RE = re.compile(rb'^[+-]?(\d+\.?\d*|\.\d+)([eE][+-]?\d+)?\Z')
 DEC_RE = re.compile(rb'^[+-]?(\d+\.?\d*|\.\d+)\Z')
 
 
-def make_cases(ctx):
+def case_stream(ctx, pred):
+    """yields batches (lists) of cases; nothing large is kept in memory"""
     quick = ctx.quick()
     cfg = 'NumGen_quick.cfg' if quick else 'NumGen_thorough.cfg'
     dump = ctx.path('gen', 'numgen')
     r = vlib.tlc_mc(ctx, 'NumGen', cfg, dump=dump, workers=min(16, vlib.NCPU), heap='6g', timeout=3000)
     lexs = lexemes_from_dump(dump + '.dump')
+    os.remove(dump + '.dump')
     ctx.coverage['generator_states'] = r['distinct']
     ctx.coverage['lexemes_enumerated'] = len(lexs)
-    # random walks far beyond the exhaustive bound (TLC -simulate on the same automaton)
-    simdir = ctx.path('sim', 'x')
-    simdir = os.path.dirname(simdir)
+    simdir = os.path.dirname(ctx.path('sim', 'x'))
     nsim = 300 if quick else 3000
     rs = vlib.tlc(ctx, 'NumGen', 'NumGen_sim.cfg', workers=1, simulate='file=%s/b,num=%d' % (simdir, nsim),
                   depth=40, seed=ctx.seed, timeout=600)
@@ -80,41 +80,47 @@ def make_cases(ctx):
         raise vlib.Infra('simulate failed: ' + rs['out'][-1500:])
     sims = lexemes_from_sim(simdir)
     ctx.coverage['lexemes_simulated'] = len(sims)
-    precs_exh = [0, -1, 1, 2, 3, 15] if quick else [0, -1] + list(range(1, 21))
     precs_all = [0, -1] + list(range(1, 21))
-    cases = []
-    seen = set()
+    BATCH = 400000
+    batch, seen_small = [], set()
 
     def add(fn, lex, prec):
-        k = (fn, bytes(lex), prec)
-        if k in seen:
-            return
-        seen.add(k)
-        cases.append(dict(id=len(cases), fn=fn, prec=prec, **{'in': list(lex)}))
+        batch.append(dict(id=len(batch), fn=fn, prec=prec, **{'in': list(lex)}))
 
-    # exhaustive set; in quick mode each lexeme gets a seeded subset of the precisions so that the
-    # whole set is covered with every precision family within the time budget
-    for lex, st in lexs:
-        if quick:
-            ps = [0, ctx.rnd.choice(precs_exh[1:]), ctx.rnd.choice([1, 2, 3])]
-        else:
-            ps = precs_exh
+    def both(lex, st, ps):
         for p in ps:
             add('Number', lex, p)
             if st in DECIMAL:
                 add('Decimal', lex, p)
+
+    full_len = 5 if quick else 6          # lexemes up to this length get every precision
+    for lex, st in lexs:
+        if len(lex) <= full_len:
+            ps = precs_all
+        elif quick:
+            ps = [0, ctx.rnd.choice([-1] + list(range(4, 21))), ctx.rnd.choice([1, 2, 3])]
+        else:
+            ps = [0, ctx.rnd.choice([-1] + list(range(5, 21))), ctx.rnd.choice([1, 2]), ctx.rnd.choice([3, 4])]
+        both(lex, st, ps)
+        if len(batch) >= BATCH:
+            yield batch
+            batch = []
     for lex, st in sims:
-        for p in (precs_all if not quick else [0, ctx.rnd.choice(precs_all), ctx.rnd.choice([1, 2, 3, 4, 5])]):
-            add('Number', lex, p)
-            if st in DECIMAL:
-                add('Decimal', lex, p)
+        both(lex, st, precs_all if not quick else [0, ctx.rnd.choice(precs_all), ctx.rnd.choice([1, 2, 3, 4, 5])])
+        if len(batch) >= BATCH:
+            yield batch
+            batch = []
     for b in sorted(repo_inputs()):
         for p in precs_all:
             if NUM_RE.match(b):
                 add('Number', b, p)
             if DEC_RE.match(b):
                 add('Decimal', b, p)
-    return cases
+    for (lx, p) in sorted(pred):           # replay every behaviour of the design model on the real function
+        add('Decimal', lx, p)
+    for c in vlib.known_cases('C08'):
+        add(c['fn'], c['in'].encode('latin1') if isinstance(c['in'], str) else c['in'], c['prec'])
+    yield batch
 
 
 def run_cases(ctx, exe, cases, tag):
@@ -139,64 +145,89 @@ def validate(ctx, exe, cases, tag):
     return lines, accepted, rejects
 
 
+def design_model(ctx):
+    """(MC) D => A for the transcription of Decimal; returns {(lexeme bytes, prec): model output bytes}"""
+    cfg = 'DecimalModel_quick.cfg' if ctx.quick() else 'DecimalModel_thorough.cfg'
+    r = vlib.tlc_mc(ctx, 'DecimalModel', cfg, workers=8, heap='6g', timeout=3000)
+    ctx.coverage['decimal_design_model_states'] = r['distinct']
+    pred = {}
+    for m in re.finditer(r'<<"OUT", (<<[^>]*>>), (-?\d+), (<<[^>]*>>)>>', r['out']):
+        pred[(bytes(vlib.tla_seq_to_list(m.group(1))), int(m.group(2)))] = bytes(vlib.tla_seq_to_list(m.group(3)))
+    if not pred:
+        raise vlib.Infra('design model emitted no behaviours')
+    # the old (pre ce8ac76) carry line must still be a design-level counterexample: guards against a vacuous DoneOK
+    r2 = vlib.tlc(ctx, 'DecimalModel', 'DecimalModel_oldcarry.cfg', workers=4, heap='3g', timeout=900)
+    if 'DoneOK' not in r2['invariant_violations']:
+        raise vlib.Infra('DecimalModel with OldCarry=TRUE should violate DoneOK (vacuity guard)')
+    return pred
+
+
 def run(ctx):
     exe = vlib.build_harness(ctx, 'c08')
-    cases = make_cases(ctx)
-    pinned = vlib.known_cases('C08')
-    for c in pinned:
-        c = dict(c)
-        c['id'] = len(cases)
-        c['in'] = list(c['in'].encode('latin1')) if isinstance(c['in'], str) else c['in']
-        cases.append(c)
-    lines, accepted, rejects = validate(ctx, exe, cases, 'main')
+    pred = design_model(ctx)
     nontrivial = set()
-    samples = []
-    for l in lines[:: max(1, len(lines) // 4000)]:
-        pass
-    changed = 0
-    for i, l in enumerate(lines):
-        e = json.loads(l)
-        if e['out'] != e['in']:
-            changed += 1
-            nontrivial.add((e['fn'], bytes(e['in']), e['prec']))
+    samples, drift = [], []
+    total = accepted_total = replayed = nrej = nrepro = 0
+    for bi, cases in enumerate(case_stream(ctx, pred)):
+        lines, accepted, rejects = validate(ctx, exe, cases, 'b%d' % bi)
+        total += len(lines)
+        accepted_total += accepted
+        for i, l in enumerate(lines):
+            if '"out":' + l[l.index('"in":') + 5:l.index(',"prec"')] + ',' in l:
+                continue                                     # out == in: trivial, nothing to record
+            e = json.loads(l)
+            if e['fn'] == 'Decimal' and (bytes(e['in']), e['prec']) in pred:
+                if not e['panic'] and bytes(e['out']) != pred[(bytes(e['in']), e['prec'])] and len(drift) < 20:
+                    drift.append(dict(prec=e['prec'], model=pred[(bytes(e['in']), e['prec'])].decode('latin1'),
+                                      real=bytes(e['out']).decode('latin1'), **{'in': bytes(e['in']).decode('latin1')}))
+            nontrivial.add(hash((e['fn'], bytes(e['in']), e['prec'])))
             if len(samples) < 6 and i % 9973 == 0:
                 samples.append(dict(fn=e['fn'], prec=e['prec'], **{'in': bytes(e['in']).decode('latin1')},
                                     out=bytes(e['out']).decode('latin1')))
-    # every rejected call is re-run alone (fresh process) and re-validated before it counts
-    if rejects:
-        bad = sorted(set(i for i, _ in rejects))
-        why = {}
-        for i, w in rejects:
-            why.setdefault(i, []).append(w)
-        sub = [dict(cases[i], id=k) for k, i in enumerate(bad[:400])]
-        lines2, acc2, rej2 = validate(ctx, exe, sub, 'rerun')
-        still = sorted(set(k for k, _ in rej2))
-        for k in still:
-            c = cases[bad[k]]
-            e = json.loads(lines2[k])
-            desc = '%s(%r, %d) = %r rejected by %s' % (c['fn'], bytes(c['in']).decode('latin1'), c['prec'],
-                                                     bytes(e['out']).decode('latin1') if not e['panic'] else 'PANIC',
-                                                     '/'.join(why[bad[k]]))
-            ctx.report(ident(c), desc, replay_obj=e)
-        ctx.coverage['rejections'] = len(bad)
-        ctx.coverage['rejections_reproduced'] = len(still)
-    if not samples:
-        e = json.loads(lines[len(lines) // 2])
-        samples.append(dict(fn=e['fn'], prec=e['prec'], **{'in': bytes(e['in']).decode('latin1')},
-                            out=bytes(e['out']).decode('latin1')))
+        for c in cases:
+            if c['fn'] == 'Decimal' and (bytes(c['in']), c['prec']) in pred:
+                replayed += 1
+        # every rejected call is re-run alone (fresh process) and re-validated before it counts
+        if rejects:
+            bad = sorted(set(i for i, _ in rejects))
+            nrej += len(bad)
+            why = {}
+            for i, w in rejects:
+                why.setdefault(i, []).append(w)
+            sub = [dict(cases[i], id=k) for k, i in enumerate(bad[:400])]
+            lines2, acc2, rej2 = validate(ctx, exe, sub, 'rerun%d' % bi)
+            still = sorted(set(k for k, _ in rej2))
+            nrepro += len(still)
+            for k in still:
+                c = cases[bad[k]]
+                e = json.loads(lines2[k])
+                desc = '%s(%r, %d) = %r rejected by %s' % (c['fn'], bytes(c['in']).decode('latin1'), c['prec'],
+                                                         bytes(e['out']).decode('latin1') if not e['panic'] else 'PANIC',
+                                                         '/'.join(why[bad[k]]))
+                ctx.report(ident(c), desc, replay_obj=e)
+            if len(still) < min(len(bad), 400):
+                raise vlib.Infra('%d rejections did not reproduce in isolation' % (min(len(bad), 400) - len(still)))
+        del lines, cases
+    ctx.coverage['rejections'] = nrej
+    ctx.coverage['rejections_reproduced'] = nrepro
+    ctx.coverage['design_model_behaviours_replayed'] = replayed
+    ctx.coverage['design_model_drift'] = drift        # information only: the model no longer describes the code
+    if drift:
+        vlib.log('DRIFT: DecimalModel and the real Decimal differ on %d replayed behaviours (information, not a verdict)' % len(drift))
     ctx.coverage.update(dict(
-        traces_validated_against_impl=accepted,
-        evaluations=len(lines),
+        traces_validated_against_impl=accepted_total,
+        evaluations=total,
         distinct_nontrivial=len(nontrivial),
         rule='every lexeme of the number grammar up to the exhaustive length bound over digits {0,1,4,5,9} '
-             '(TLC state dump of NumGen), lexemes met along TLC -simulate walks to length 40, and the '
-             'repository corpus/test inputs, crossed with precisions; a case is (fn, lexeme, precision); '
-             'non-trivial = the helper returned bytes different from its input',
+             '(TLC state dump of NumGen; all 22 precisions up to length %d, a seeded choice of 3-4 precisions per lexeme above), '
+             'lexemes met along TLC -simulate walks to length 40, every finished behaviour of the Decimal design model, and the '
+             'repository corpus/test inputs; a case is (fn, lexeme, precision); '
+             'non-trivial = the helper returned bytes different from its input' % (5 if ctx.quick() else 6),
         samples=samples,
         exhaustive=True,
         exhaustive_bound='all lexemes with length <= %s over {0,1,4,5,9,+,-,.,e}' % ('6' if ctx.quick() else '7'),
     ))
-    ctx.assumptions += ['TLC evaluates NumVal.NumberOK/DecimalOK; BigNat digit arithmetic (cross-checked against math/big in harness selftest)',
+    ctx.assumptions += ['TLC evaluates NumVal.NumberOK/DecimalOK (BigNat digit arithmetic) as the meaning of a lexeme',
                         'each call uses a fresh guarded buffer (guard bytes both sides, cap==len)']
 
 
